@@ -7,8 +7,9 @@ comparison; detection of damage in checksummed regions under an EXPLICIT hypothe
 case analysis of the unchecksummed regions) and — for the half that rests on CRC32C itself — by
 exhaustive damage of sample files produced by the real builders: every single-bit flip and byte
 overwrites at every offset (thorough; quick: every offset of the unchecksummed regions and of the
-frame envelopes plus a stride elsewhere), every truncation length, appended suffixes and short
-sequences, run through Sst::new + metadata + forward and backward cursor walks + load,
+frame envelopes plus a stride elsewhere), adjacent multi-byte overwrites (windows of 2..10 bytes:
+valid UTF-8 characters, varint-lengthening patterns, continuation bits switched on), every
+truncation length, appended suffixes and short sequences, run through Sst::new + metadata + forward and backward cursor walks + load,
 LogIterator + log_to_builder + log_to_setsum, ManifestIterator + Manifest::open, classified
 {error, identical, metadata only, clean prefix (truncation), different data, panic, abort, huge
 allocation} against the pristine file (the direct oracle) and compared with the extracted model."""
@@ -24,7 +25,7 @@ import c09_fmt as F
 
 META = {
     "category": "proof",
-    "text": "Coq theorems (Damage/Props_C09.v, closed under the global context) over byte-level models of the SST, log and manifest readers on ARBITRARY bytes: the readers never panic, never run out of fuel, never allocate more than the file (SST, manifest) or a constant (log); damage never changes what a reader returned before reaching it; every block / frame / line a reader accepts has passed a checksum comparison; a damaged stored checksum is always detected; a damaged payload is detected under the explicit hypothesis that crc tells it from the original (crc is a Section variable: the detection half is partial by construction, CRC32C's error-detection properties are not proved); the unchecksummed regions (SST final block and trailing offset, log header-size byte, manifest separator lines) by case analysis with a _refuted witness where the property fails. The CRC-dependent half is decided on samples: files from the real builders, damaged exhaustively (bit flips, byte overwrites, truncations, extensions, short sequences), read by the real readers under an allocation-counting allocator, compared with the pristine file and with the extracted model.",
+    "text": "Coq theorems (Damage/Props_C09.v, closed under the global context) over byte-level models of the SST, log and manifest readers on ARBITRARY bytes: the readers never panic, never run out of fuel, never allocate more than the file (SST, manifest) or a constant (log); damage never changes what a reader returned before reaching it; every block / frame / line a reader accepts has passed a checksum comparison; a damaged stored checksum is always detected; a damaged payload is detected under the explicit hypothesis that crc tells it from the original (crc is a Section variable: the detection half is partial by construction, CRC32C's error-detection properties are not proved); the unchecksummed regions (SST final block and trailing offset, log header-size byte, manifest separator lines) by case analysis with a _refuted witness where the property fails. The CRC-dependent half is decided on samples: files from the real builders, damaged exhaustively (bit flips, byte overwrites, adjacent multi-byte overwrites written with valid UTF-8 characters and varint-lengthening patterns, truncations, extensions, short sequences), read by the real readers under an allocation-counting allocator, compared with the pristine file and with the extracted model.",
     "note": "Partial: detection inside checksummed regions is proved only under stated hypotheses on crc and otherwise sampled. Trusted: Coq kernel; tools/constants.py; ExtrOcamlBasic extraction + ocaml/damage driver (native crc32c, partition_point as a count); harness c09 (counting global allocator); Python crc32c / SipHash-2-4 / layout parser. Not modelled: BlockCursor::prev and the last-key half of Sst::metadata (run and checked against the pristine file, not against the model); std's partition_point on unsorted forged index keys. Known classes: log-tiny-frame-at-block-end, append-wellformed-suffix.",
 }
 
@@ -147,6 +148,30 @@ def overwrites(rng, data, off, many):
     return ["o%d:%d" % (off, v) for v in sorted(vals)]
 
 
+UTF8_CHARS = [b"\xc3\xa9", b"\xe2\x82\xac", b"\xf0\x9f\x98\x80"]
+
+
+def window_patterns(data, off):
+    """the byte strings written over data[off:off+len] by the adjacent-bytes damage family"""
+    n = len(data)
+    out = []
+    for c in UTF8_CHARS:
+        if off + len(c) <= n:
+            out.append(c)
+    for w in (2, 3, 4):
+        if off + w <= n:
+            out.append(b"\xff" * (w - 1) + b"\x01")
+            out.append(b"\xff" * (w - 1) + b"\x7f")
+            out.append(b"\x80" * (w - 1) + b"\x01")
+    for w in (5, 8, 9, 10):
+        if off + w <= n:
+            out.append(b"\xff" * (w - 1) + b"\x01")
+    for w in range(2, 11):
+        if off + w <= n:
+            out.append(bytes(x | 0x80 for x in data[off:off + w - 1]) + bytes([data[off + w - 1] & 0x7f]))
+    return out
+
+
 def damage_set(rng, data, regions, unchecked, tier, stats, stride_target, big=False):
     """patch strings for one file.  regions: [(name, lo, hi)]; unchecked(name) -> bool"""
     n = len(data)
@@ -168,6 +193,40 @@ def damage_set(rng, data, regions, unchecked, tier, stats, stride_target, big=Fa
         patches += flips(off)
         patches += overwrites(rng, data, off, tier == "thorough")
     stats["offsets"] += len(offs)
+    # adjacent multi-byte overwrites: windows of 2..10 bytes written with valid multi-byte UTF-8
+    # characters, with varint-lengthening patterns, and with the continuation bits of the bytes
+    # that are there switched on (a varint that runs on through the fields behind it)
+    if tier == "thorough" and not big:
+        woffs = range(n)
+    elif big:
+        woffs = sorted(o for o in offs if o % 3 == 0)
+    else:
+        woffs = set()
+        for name, lo, hi in regions:
+            if unchecked(name) or name.startswith(("l", "sep")):
+                woffs.update(range(lo, hi))
+        wstride = max(1, n // max(1, stride_target // 2))
+        woffs.update(range(rng.below(wstride), n, wstride))
+        woffs = sorted(woffs)
+    nwin = 0
+    sst_like = any(name == "trailer" for name, lo, hi in regions)
+    full = set()
+    for name, lo, hi in regions:
+        if unchecked(name) or name.startswith(("l", "sep")):
+            full.update(range(lo, hi))
+    for off in woffs:
+        pats = window_patterns(data, off)
+        if tier == "quick" and not big and off not in full:
+            pats = pats[:3] + pats[3:6] + pats[-9::3]     # the UTF-8 characters, one varint pattern each way
+        elif tier == "quick" and sst_like:
+            # an SST's unchecksummed tail: every continuation-bit window, a few fixed patterns
+            pats = pats[:1] + [q for q in pats[3:-9] if len(q) in (2, 4, 9) and q[-1] == 1] + pats[-9:]
+        for w in pats:
+            p = F.overwrite_patch(data, off, w)
+            if p != "-":
+                patches.append(p)
+                nwin += 1
+    stats["windows"] += nwin
     # truncations
     if tier == "thorough" and not big:
         cuts = set(range(0, n))
@@ -596,6 +655,10 @@ def run(chk):
         c, detail = classify(b["pristine"], line, p, is_trunc)
         single = re.fullmatch(r"[fo](\d+):\d+", p)
         reg = region_of(b, int(single.group(1))) if single else ("trunc" if p.startswith("t") else "ext" if p.startswith("x") else "seq")
+        if reg == "seq" and re.fullmatch(r"o\d+:\d+(,o\d+:\d+)*", p):
+            wo = [int(x) for x in re.findall(r"o(\d+):", p)]
+            if wo[-1] - wo[0] < 10:
+                reg = "window@" + region_of(b, wo[0])
         key = "%s/%s" % (b["kind"], reg)
         if c == "prefix-clean-end" and not is_trunc:
             c = "different"
@@ -622,17 +685,30 @@ def run(chk):
             samples.append("%s %s -> %s" % (b["id"], p, line[:160]))
 
     # ---- the same cases on the extracted model
-    budget = 14000 if quick else 150000
-    sel = []
+    # an SST case costs the model some 5-10 ms, a log or manifest case a fraction of a millisecond:
+    # every case of the unchecksummed regions and every truncation / extension / sequence goes to
+    # the model; of the windows and single damages inside checksummed SST payloads, a stride
+    budget = 22000 if quick else 250000
+    sel, rest = [], []
+    win_re = re.compile(r"o(\d+):\d+(,o\d+:\d+)+")
     for i, (b, p) in enumerate(cases):
         if "big" in b:
             continue
         single = re.fullmatch(r"[fo](\d+):\d+", p)
-        unchk = single and b["unchecked"](next((n for n, lo, hi in b["regions"] if lo <= int(single.group(1)) < hi), "gap"))
-        if unchk or not single:
+        wm = None if single else win_re.fullmatch(p)
+        first = int(single.group(1)) if single else int(wm.group(1)) if wm else None
+        if first is None:
             sel.append(i)
-    selset = set(sel)
-    rest = [i for i, (b, p) in enumerate(cases) if "big" not in b and i not in selset]
+            continue
+        name = next((n for n, lo, hi in b["regions"] if lo <= first < hi), "gap")
+        if b["kind"] != "sst":
+            (sel if (b["unchecked"](name) or wm) else rest).append(i)
+        elif single and b["unchecked"](name):
+            sel.append(i)
+        elif name in ("final", "trailer") and (not quick or i % 2 == 0):
+            sel.append(i)
+        else:
+            rest.append(i)
     if len(sel) < budget:
         step = max(1, len(rest) // max(1, budget - len(sel)))
         sel += rest[rng.below(step)::step]
@@ -764,7 +840,12 @@ def alloc_bound(b, patch):
     n = len(F.patch_apply(b["bytes"], patch)) if len(b["bytes"]) < 70000 else len(b["bytes"]) + 64
     if b["kind"] == "log":
         return 4 * n + (6 << 20)        # BufReader (2 MiB read buffer by default) + the frame buffer
-    return 4 * n + (64 << 10)
+    if b["kind"] == "mani":
+        return 4 * n + (16 << 10)       # BufReader (8 KiB) + the line
+    # an SST reader allocates the final block, one frame and one copy of its payload at a time, the
+    # index entries and the filter: all within the file.  (Measured on undamaged and damaged files
+    # of every run: at most about the file size.)  Anything beyond four times the file is reported.
+    return 4 * n + 2048
 
 
 def in_tiny_frame_class(b, patch):
